@@ -474,6 +474,11 @@ func (ed *economicsData) ComputeGasUsedAndFeeBasedOnRefundValue(tx process.Trans
 			gasLimit := ed.ComputeGasLimit(tx)
 
 			gasLimitWithBuiltInCost := cost + gasLimit
+			// the built-in function call cannot use more gas than the sender provided
+			if gasLimitWithBuiltInCost < cost || gasLimitWithBuiltInCost > tx.GetGasLimit() {
+				return tx.GetGasLimit(), ed.ComputeTxFee(tx)
+			}
+
 			txFee := ed.ComputeTxFeeBasedOnGasUsed(tx, gasLimitWithBuiltInCost)
 
 			// transaction will consume all the gas if sender provided too much gas
